@@ -86,6 +86,7 @@ namespace vh
 #include "vh_api.h"
 #include "vh_ctl.h"
 #include "vh_iso.h"
+#include "vh_pbo.h"
 
 static std::string handle(const std::string& verb, const std::vector<std::string>& f)
 {
@@ -104,6 +105,7 @@ static std::string handle(const std::string& verb, const std::vector<std::string
         else if (verb == "ctl2") { return vh::verb_ctl2(f); }
         else if (verb == "ctl3") { return vh::verb_ctl3(f); }
         else if (verb == "iso") { return vh::verb_iso(f); }
+        else if (verb == "pbo") { return vh::verb_pbo(f); }
         else { return "bad-verb"; }
     }
     catch (const std::exception& ex)
